@@ -302,18 +302,20 @@ def exInitSelf : Tm :=
   (.seq (.letS 6 "a" (.op .call (.seq (.var 5 "A") .nil)))
   (.seq (.op .exprS (.seq (.op .call (.seq (.var 6 "print") (.seq (.op (.getF "v") (.seq (.var 7 "a") .nil)) .nil))) .nil)) .nil))
 
-/-- **Witness (known finding D32).**  An initialiser returns slot 0 with `GetLocal(0)` whatever the
-state of `self`: when a closure inside `init` captures `self`, the prologue boxes slot 0 (`Box 0`) and
-the implicit return hands out the box.  The Spec prints 1; the machine (like the VM) finds a box where
-the instance should be. -/
-theorem C02_witness_init_returns_box :
+/-- **Regression fact (repaired finding D32 = D27c, `7304c16`).**  `emit_return` of an initialiser reads `self` the way
+every other use does: when a closure inside `init` captures `self`, the prologue boxes slot 0 (`Box 0`) and the implicit
+return reads through the box (`GetBox 0`), so `A()` is the instance.  (Before the repair the last instruction was
+`GetLocal(0)` and the constructor call answered the box; a seeded change that restored exactly that went unnoticed by this
+check because the generator still avoided the shape and this model still described the old compiler.)  The Spec prints 1,
+and so does the machine. -/
+theorem C02_init_returns_instance_when_self_is_captured :
     (resolve exInitSelf).errors = [] ∧ (compile (resolve exInitSelf)).panics = [] ∧
     ((compile (resolve exInitSelf)).funs.map (fun f => (f.name, f.evs)))[1]? =
-      some ("init", [.box 0, .get (.box 0), .closure "lambda" [.loc 0], .get (.local 0)]) ∧
+      some ("init", [.box 0, .get (.box 0), .closure "lambda" [.loc 0], .get (.box 0)]) ∧
     Sem.run 40 exInitSelf = (["1"], "ok") := by
   decide
 
-#guard Machine.run 100 (resolve exInitSelf) == ([], "fail:box leaked a")
+#guard Machine.run 100 (resolve exInitSelf) == (["1"], "ok")
 
 /-! ## C02_let_without_initialiser: a variable declared without a value is nil, in every storage class -/
 
